@@ -159,10 +159,10 @@ def parse_args(argv: "Optional[List[str]]") -> Settings:
         elif not after_flags and longarg in FLAGS:
             # --throttle and --init are the only flag that takes an argument.
             if longarg == "--throttle":
-                if i == len(argv) - 1 or not argv[i + 1].isdigit():
+                if i == len(argv) - 1:
                     sys.stderr.write("--throttle takes one integer argument.\n")
                     sys.exit(1)
-                flags[longarg] = int(argv[i + 1])
+                flags[longarg] = parse_throttle(argv[i + 1])
                 i += 1
             elif longarg == "--init":
                 if i == len(argv) - 1:
@@ -173,9 +173,9 @@ def parse_args(argv: "Optional[List[str]]") -> Settings:
             else:
                 flags[longarg] = True
         # Special syntax for --init and --throttle.
-        elif not after_flags and longarg.startswith("--throttle"):
-            flags["--throttle"] = int(longarg[len("--throttle=") :])
-        elif not after_flags and longarg.startswith("--init"):
+        elif not after_flags and longarg.startswith("--throttle="):
+            flags["--throttle"] = parse_throttle(longarg[len("--throttle=") :])
+        elif not after_flags and longarg.startswith("--init="):
             flags["--init"] = longarg[len("--init=") :]
         elif not after_flags and longarg.startswith("-") and len(longarg) > 1:
             sys.stderr.write("Unrecognized flag: " + arg + "\n")
@@ -279,6 +279,21 @@ def parse_args(argv: "Optional[List[str]]") -> Settings:
         settings.volume = VOLUME_QUIET
 
     return settings
+
+
+def parse_throttle(value: str) -> int:
+    """Parse the argument of --throttle, or exit with a usage error."""
+    try:
+        # isdigit() is also true of some characters that int() does not accept.
+        throttle = int(value) if value.isdigit() else -1
+    except ValueError:
+        throttle = -1
+
+    if throttle < 0:
+        sys.stderr.write("--throttle takes one integer argument.\n")
+        sys.exit(1)
+
+    return throttle
 
 
 def short_to_long(arg: str) -> str:
